@@ -525,9 +525,24 @@ def l2_suite(profile, quick=60, thorough=1500, native=True, name=None, extra_mon
                 res.mismatches.append(dict(suite=res.name, case=c, impl=' ; '.join(' '.join(x) for x in iops)[:3000], model=' ; '.join(' '.join(x) for x in mops)[:3000]))
             else:
                 logged_mismatch = False
+                kinds_c, ties_c = None, None
                 for j, (x, y) in enumerate(zip(iops, mops)):
                     if x == y:
                         continue
+                    if x[:1] == ['ok'] and y[:1] == ['ok'] and len(x) > 1 and x[1].isdigit():
+                        # s3db_changes opens the named versions itself, in an order nobody observes:
+                        # rows of keys written twice at one write time (ties) may legitimately differ
+                        if kinds_c is None:
+                            try:
+                                kinds_c, ties_c = parse_sql_kinds(c), tie_keys(c)
+                            except (ValueError, IndexError):
+                                kinds_c, ties_c = [], set()
+                        if 1 <= j <= len(kinds_c) and kinds_c[j - 1][0] == 'changes' and ties_c:
+                            rx, ry = rows_by_key(x), rows_by_key(y)
+                            if rx is not None and ry is not None and \
+                               {k: v for k, v in rx.items() if k not in ties_c} == {k: v for k, v in ry.items() if k not in ties_c}:
+                                res.stats_tie_excused = getattr(res, 'stats_tie_excused', 0) + 1
+                                continue
                     if phantom_excuse(c, j, x, y):
                         excused_from = j
                         break
